@@ -757,8 +757,8 @@ func headerDecodeChecksFiltered(c *Ctx, rule string, onlyC01 bool, filter func(n
 			hdrCase{name: "type3,new-message(delta re-applied)", format: 3, fresh: true, dom: old(), bind: noExt,
 				fields: map[string]Want{"header.Timestamp": {Atom: sum(hTs, hDelta), Width: 31}, "header.payloadLength": {Atom: hLen, Width: 24}, "consumed": {Const: cst(0)}}},
 			hdrCase{name: "type1,extended-timestamp-is-a-delta", format: 1, fresh: true, known: true,
-				dom:  with(old(), map[string]Dom{"ext": {W: 31, Hi: -1}, "len": {W: 24, Hi: -1}, "type": {W: 8, Hi: -1}}),
-				spec: abs.Cat(abs.ConstBytes(0xff, 0xff, 0xff), abs.Pack(abs.F("len", 23, 0)), abs.Pack(abs.F("type", 7, 0)), abs.Pack(abs.X(1), abs.F("ext", 30, 0))),
+				dom:    with(old(), map[string]Dom{"ext": {W: 31, Hi: -1}, "len": {W: 24, Hi: -1}, "type": {W: 8, Hi: -1}}),
+				spec:   abs.Cat(abs.ConstBytes(0xff, 0xff, 0xff), abs.Pack(abs.F("len", 23, 0)), abs.Pack(abs.F("type", 7, 0)), abs.Pack(abs.X(1), abs.F("ext", 30, 0))),
 				fields: map[string]Want{"header.Timestamp": {Atom: sum(hTs, "ext"), Width: 31}, "consumed": {Const: cst(11)}}},
 			// rejections
 			hdrCase{name: "reject:fresh-stream,type1,csid!=2", format: 1, fresh: true, dom: with(old(), map[string]Dom{"chunk.count": {W: 32, Hi: -1}, "chunk.cid": {W: 16, Lo: 3, Hi: -1}}),
